@@ -41,6 +41,11 @@ class SrcIndex:
             if kind == 'struct':
                 if opener == '{':
                     fields = [f for f in (_field_name(x) for x in _split(body)) if f]
+                    self.field_types = getattr(self, 'field_types', {})
+                    for x in _split(body):
+                        fn_ = _field_name(x)
+                        if fn_:
+                            self.field_types[(rel, name, fn_)] = re.sub(r'#\[[^\]]*\]', '', x).split(':', 1)[1].strip()
                 else:
                     fields = [str(i) for i, x in enumerate(_split(body)) if x.strip()]
                 self.structs[(rel, name)] = fields
@@ -71,6 +76,13 @@ class SrcIndex:
             return None
         rel = _best(c, hint)
         return self.structs[(rel, name)]
+
+    def field_type(self, name, field, hint=''):
+        c = [(rel, k) for rel, k in self.by_name.get(name, []) if k == 'struct']
+        if not c:
+            return None
+        rel = _best(c, hint)
+        return getattr(self, 'field_types', {}).get((rel, name, field))
 
     def enum_variants(self, name, hint=''):
         c = [(rel, k) for rel, k in self.by_name.get(name, []) if k == 'enum']
